@@ -166,7 +166,7 @@ func first(ids []string) string {
 
 func genWildDoc(t *rapid.T, label string) wildDoc {
 	doc := &sbom.Document{}
-	hx.Populate(t, label, doc.ProtoReflect(), hx.PopOpts{Depth: 4, MaxRep: 3, FillProb: 60, BadEnums: true,
+	hx.Populate(t, label, doc.ProtoReflect(), hx.PopOpts{Depth: 4, MaxRep: 4, FillProb: 60, BadEnums: true, KeyRange: 5,
 		Text: rapid.OneOf(rapid.SampledFrom([]string{"a", "b", "c", "d", "1", "7", "x1", ""}), hx.TextPlain())})
 	if doc.NodeList != nil {
 		// small id pool so that edges and roots often refer to nodes (and sometimes dangle)
